@@ -482,6 +482,12 @@ def eval3(e, env, atoms=None):
     if isinstance(e, ast.UnaryOp) and isinstance(e.op, ast.Not):
         v = eval3(e.operand, env, atoms)
         return UNK if v is UNK else (not v)
+    if isinstance(e, ast.Call) and isinstance(e.func, ast.Name) and e.func.id == 'bool' and len(e.args) == 1 and not e.keywords:
+        v = eval3(e.args[0], env, atoms)
+        try:
+            return UNK if v is UNK else bool(v)
+        except Exception:
+            return UNK
     if isinstance(e, ast.BoolOp):
         vals = [eval3(v, env, atoms) for v in e.values]
         if isinstance(e.op, ast.And):
